@@ -430,6 +430,87 @@ def parse_nanoc_model(line):
     return dict(cls='exit', code=int(f[1], 16), binary=f[2] == '1', failed=failed, warn=warn, stderr_failed=f[5].endswith('1'))
 
 
+# ------------------------------------------------------------------------------------------ iteration-dependent assertions
+ITER_PATTERNS = ['false-first', 'false-middle', 'false-all-but-last', 'false-last-only', 'all-true']
+ITER_PLACES = ['shadow', 'helper']
+ITER_LOOPS = ['for', 'while']
+ITER_EXITS = ['normal', 'break', 'return']
+HELPER_RESULT = 7
+
+
+def count_iter(ck, cases):
+    """measured distribution of the iteration-dependent constructs of a batch"""
+    d = ck.extra.setdefault('iteration_dependent', collections.Counter())
+    for c in cases:
+        it = getattr(c, 'iter', None)
+        if not it:
+            continue
+        d['cases'] += 1
+        d['pattern=' + it['pattern']] += 1
+        d['place=' + it['place']] += 1
+        d['loop=' + it['loop']] += 1
+        d['exit=' + it['exit']] += 1
+        if it['false'] and it['last_passes']:
+            d['false-then-last-iteration-passes'] += 1
+            if c.mode == 'none':
+                d['false-then-last-iteration-passes, nothing else fails'] += 1
+        if it['false'] and not it['last_passes']:
+            d['true-then-last-iteration-fails'] += 1
+
+
+def iter_construct(rng, g, place, loop, exit_, pattern):
+    """A loop whose assertion's truth value depends on the iteration: false only in the first / a middle / every iteration but
+    the last EXECUTED one (which passes), or true everywhere but in the last one, or true everywhere (control).  The loop is
+    left normally, through break, or (helper only) through return.  Returns (statements, info)."""
+    NUM = lambda z: ('num', z)
+    n = rng.randrange(4, 6)
+    lo = rng.choice([0, 0, -1, 2])
+    e = n - 1 if exit_ == 'normal' else rng.randrange(2, n - 1)          # index of the last executed iteration
+    m = rng.randrange(1, e)
+    iv = g.fresh()
+    V = ('var', iv)
+    cond = {'false-first': ('bin', 'ne', V, NUM(lo)),
+            'false-middle': ('bin', 'ne', V, NUM(lo + m)),
+            'false-all-but-last': ('bin', 'ge', V, NUM(lo + e)),
+            'false-last-only': ('bin', 'lt', V, NUM(lo + e)),
+            'all-true': ('bin', 'ge', V, NUM(lo))}[pattern]
+    nfalse = {'false-first': 1, 'false-middle': 1, 'false-all-but-last': e, 'false-last-only': 1, 'all-true': 0}[pattern]
+    body = [('assert', cond)]
+    if exit_ != 'normal':
+        leave = ('break',) if exit_ == 'break' else ('ret', NUM(HELPER_RESULT))
+        body.append(('if', ('bin', 'eq', V, NUM(lo + e)), leave, ('skip',)))
+    if loop == 'for':
+        stmts = [('for', iv, NUM(lo), NUM(lo + n), seq(body))]
+    else:
+        body.append(('set', iv, ('bin', 'add', V, NUM(1))))
+        stmts = [('let', True, iv, 'int', NUM(lo)), ('while', ('bin', 'lt', V, NUM(lo + n)), seq(body))]
+    info = dict(place=place, loop=loop, exit=exit_, pattern=pattern, executed=e + 1, false=nfalse,
+                last_passes=pattern != 'false-last-only')
+    return stmts, info
+
+
+def add_iter_construct(rng, g, p, order, shadows, choice=None):
+    """adds one iteration-dependent construct to the case: inside the shadow block of some function, or inside a new helper
+    function that a new shadow block calls.  Returns info."""
+    place, loop, exit_, pattern = choice or (rng.choice(ITER_PLACES), rng.choice(ITER_LOOPS), rng.choice(ITER_EXITS), rng.choice(ITER_PATTERNS))
+    if place == 'shadow' and exit_ == 'return':
+        exit_ = rng.choice(['normal', 'break'])
+    stmts, info = iter_construct(rng, g, place, loop, exit_, pattern)
+    if place == 'shadow':
+        tgt = rng.choice(order)
+        # before or after the statements already there
+        shadows[tgt] = (stmts + shadows[tgt]) if rng.random() < 0.4 else (shadows[tgt] + stmts)
+        info['test'] = tgt
+    else:
+        h = g.fresh()
+        r = g.fresh()
+        p['fns'].insert(len(p['fns']) - 1, dict(name=h, params=[], ret='int', body=seq(stmts + [('ret', ('num', HELPER_RESULT))]), effect=True))
+        order.insert(len(order) - 1 if order and order[-1] == 0 else len(order), h)
+        shadows[h] = [('let', False, r, 'int', ('call', h, [])), ('assert', ('bin', 'eq', ('var', r), ('num', HELPER_RESULT)))]
+        info['test'] = h
+    return info
+
+
 class Names:
     """fresh-name source with the interface shadow_body needs"""
     def __init__(self, start=1):
@@ -518,7 +599,7 @@ def clash_program(seed):
 
 
 # ------------------------------------------------------------------------------------------ building a batch of cases
-def build_cases(ck, nv_lang, seeds, cfg, modes, tag, drop_shadow_prob=0.0, genf=None):
+def build_cases(ck, nv_lang, seeds, cfg, modes, tag, drop_shadow_prob=0.0, genf=None, iter_prob=(0.0, 0.0)):
     """Generates programs, asks the reference semantics for the values the shadow assertions expect, builds S/A/sprog.
     Returns list of Case."""
     pre = []
@@ -562,9 +643,16 @@ def build_cases(ck, nv_lang, seeds, cfg, modes, tag, drop_shadow_prob=0.0, genf=
         c.picked = picked
         if c.mode != 'none' and not picked:
             c.mode = 'none'
+        # iteration-dependent assertions (after the mutation, so they stay as built); mostly where nothing else fails, so that
+        # the gate's verdict hangs on them alone
+        c.iter = None
+        if rng.random() < (iter_prob[0] if c.mode == 'none' else iter_prob[1]):
+            c.iter = add_iter_construct(rng, g, p, order, shadows)
         # a function may lack its shadow block (C06: reported, does not gate)
         c.dropped_shadows = [n for n in order if n != 0 and rng.random() < drop_shadow_prob]
         c.order = [n for n in order if n not in c.dropped_shadows]
+        if c.iter and c.iter['test'] in c.dropped_shadows:
+            c.iter = None
         c.shadows = {n: shadows[n] for n in c.order}
         c.feat = dict(g.feat)
         finish_case(c)
@@ -597,6 +685,7 @@ def hand_case(cid, p, shadows, order=None):
     c.order = order or [f['name'] for f in p['fns']]
     c.shadows = {n: shadows.get(n, [('assert', ('bool', True))]) for n in c.order}
     c.dropped_shadows = []
+    c.iter = None
     return finish_case(c)
 
 
@@ -756,8 +845,33 @@ def native_segments(c):
     return split_a_output(n['out'])[1]
 
 
+def ref_fault_test(c):
+    """the reference run of A(p) stopped at a FALSE ASSERTION inside a called function (those stay real assertions): index of the
+    test during which it happened, or None"""
+    if c.ref_a['cls'] != 'fault-assert':
+        return None
+    k = c.ref_a['out'].count(MARK_T + b'\n')
+    return k - 1 if k >= 1 else None
+
+
+def cmp_gate_fault(c, k):
+    """C06 oracle for that situation: an executed assertion is false, so no executable, non-zero exit, the test is named."""
+    bad = []
+    ex = [t for t in c.r_verbose.get('tests', []) if t[2] != 'SKIPPED']
+    name = ex[k][0] if k < len(ex) else '?'
+    if c.r_rc == 0:
+        bad.append('an assertion executed by test %s (inside a called function) is false but nanoc exits 0' % name)
+    if c.r_binary:
+        bad.append('an assertion executed by test %s (inside a called function) is false but an executable is left at the output path' % name)
+    if k < len(ex) and ex[k][2] != 'FAILED':
+        bad.append('test %s executes a false assertion (reference) but nanoc reports it %s' % (name, ex[k][2]))
+    if (c.r_rc != 0) and 'Shadow tests failed' not in c.r_stderr:
+        bad.append('"Shadow tests failed" missing on stderr')
+    return bad
+
+
 def replay_dict(c, **kw):
-    d = dict(case=c.id, mode=c.mode, source=c.s_src, a_source=c.a_src, sprog=c.sprog, a_sexp=c.a_sexp, order=c.order_names,
+    d = dict(case=c.id, mode=c.mode, iteration_dependent=getattr(c, 'iter', None), source=c.s_src, a_source=c.a_src, sprog=c.sprog, a_sexp=c.a_sexp, order=c.order_names,
              real=dict(rc=c.r_rc, binary=c.r_binary, stdout=c.r_stdout.decode('latin1')[-3000:], stderr=c.r_stderr[-1500:]),
              names_apart=c.m_apart)
     if c.r_native:
